@@ -59,7 +59,8 @@ TRUSTED = [
 ASSUMPTIONS = [
     "files are ASCII apart from comment lines (str.strip / str.lower are modelled on ASCII: space, \\t, \\n, \\r, \\x0b, \\x0c; A-Z)",
     "no timestamps (@timestamps true files are outside the modelled grammar; the writer cannot produce them)",
-    "class labels are tokens without white space and ':' (the format delimits them with these); problem names are non-blank, "
+    "class values contain no ':' , no white space other than inner blanks ('gun draw' is allowed and must come back exactly, "
+    "lower-cased), no blank at their ends (the parser strips the text after the last ':'); problem names are non-blank, "
     "without newline and '/'",
     "decimal exponents within double range (no overflow to inf)",
 ]
@@ -826,7 +827,9 @@ def in_domain(c):
         return False
     for l in list(cl) + list(vals):
         s = str(l)
-        if not s or any(ch.isspace() or ch == ":" for ch in s):
+        # class values may contain inner blanks ("gun draw"): the writer prints them and the loader returns the text
+        # after the last ':' stripped at its ends; other white space, ':' and outer blanks are outside the format
+        if not s or s != s.strip() or ":" in s or any(ch.isspace() and ch != " " for ch in s):
             return False
     return True
 
@@ -933,6 +936,17 @@ def oracle(c, out):
             if f != "T":
                 fails.append(("%s:forms-differ:%s" % (site, s), "return_X_y=True and the single frame disagree for split=%s" % s))
         return fails
+    if k in ("ts", "arff", "tsv") and "expect" in c:
+        # hand-written files: what the file says, instance by instance (labels exactly, inner blanks included)
+        r = parse_result(_kv(out).get(k, "-"))
+        e = c["expect"]
+        if r is None:
+            return [("%s-file:rejected" % k, "a well-formed %s file does not load: %s" % (k, out[:80]))]
+        if r[1] != e["y"]:
+            fails.append(("%s-file:labels" % k, "file says %r, loaded %r" % (e["y"], r[1])))
+        got = [[[_val(v) for v in srs] for srs in dim] for dim in r[2]]
+        if got != e["X"]:
+            fails.append(("%s-file:values" % k, "file says %r, loaded %r" % (e["X"], got)))
     return fails
 
 
@@ -1066,7 +1080,8 @@ COMMENTS = [None, "short comment", "A longer comment that has to be wrapped by t
             "and then some more text so that there are three lines. @data @problemName trap", "@data", "x" * 150, "  padded  ", "multi\nline\ncomment",
             # wrapped so that a continuation line begins with a tag (it must still be written as a comment line)
             "y" * 66 + " @data and more words to follow", "z" * 60 + " filler @problemName again " + "w" * 40 + " @classLabel true q"]
-LABEL_POOL = ["a", "B", "1", "2", "Yes", "NO", "class_1", "x-y", "3.5", "label", "A,b", "'q'", "-1", "true", "FALSE", "@data", "#c"]
+LABEL_POOL = ["a", "B", "1", "2", "Yes", "NO", "class_1", "x-y", "3.5", "label", "A,b", "'q'", "-1", "true", "FALSE", "@data", "#c",
+              "gun draw", "No Gun", "New York City", "a  b", "x - y", "1 2"]
 
 
 def _rand_value(rng, kind):
@@ -1185,7 +1200,11 @@ def _gen_set(rng, nd=None, n=None):
     n = n if n is not None else rng.randrange(1, 8)
     L = rng.randrange(1, 12)
     dec = rng.randrange(1, 9)
-    labs = rng.choice([["1", "2"], ["0", "1", "2"], ["7"], ["10", "-1"]] if rng.random() < 0.5 or nd == 1 else [["Standing", "Running"], ["a", "B", "c"]])
+    r_ = rng.random()
+    if r_ < 0.2:
+        labs = rng.choice([["gun draw", "no gun", "point"], ["Class A", "class  b"]])      # inner blanks (all three formats carry them)
+    else:
+        labs = rng.choice([["1", "2"], ["0", "1", "2"], ["7"], ["10", "-1"]] if r_ < 0.6 or nd == 1 else [["Standing", "Running"], ["a", "B", "c"]])
     return {"X": [[_gen_tokens(rng, L, dec) for _ in range(n)] for _ in range(nd)], "y": [rng.choice(labs) for _ in range(n)]}
 
 
@@ -1230,7 +1249,12 @@ def _malformed_ts(rng, tier):
     out.append({"k": "ts", "tag": "only-comment", "text": "#nothing here\n"})
     out.append({"k": "ts", "tag": "only-data-tag", "text": "@data\n"})
     out.append({"k": "ts", "tag": "data-tag-then-rows", "text": "@data\n1,2,3\n"})
-    out.append({"k": "ts", "tag": "no-final-newline", "text": TS_OK[:-1]})
+    exp_ok = {"y": ["a", "b"], "X": [[[1.0, 2.0, 3.5], [-1.0, 0.25, 1000.0]]]}
+    out[0]["expect"] = exp_ok                                   # the valid file itself
+    out.append({"k": "ts", "tag": "label-inner-blanks", "text": TS_OK.replace("true a b", "true gun draw no gun").replace(":a", ":Gun Draw").replace(":b", ":no  gun"),
+                "expect": dict(exp_ok, y=["gun draw", "no  gun"])})
+    out.append({"k": "ts", "tag": "label-outer-blanks", "text": TS_OK.replace(":a", ":  A B \t").replace(":b", " : b"), "expect": dict(exp_ok, y=["a b", "b"])})
+    out.append({"k": "ts", "tag": "no-final-newline", "text": TS_OK[:-1], "expect": exp_ok})
     out.append({"k": "ts", "tag": "blank-lines", "text": TS_OK.replace("\n", "\n\n")})
     out.append({"k": "ts", "tag": "upper", "text": TS_OK.upper()})
     out.append({"k": "ts", "tag": "indented", "text": "".join("  \t" + l + "  \n" for l in L)})
@@ -1284,6 +1308,10 @@ def _malformed_other(rng):
                    ("missing", ARFF_MULTI.replace("3,4", "?,4")), ("inner-quote", ARFF_MULTI.replace("3,4", "3,'4"))]:
         out.append({"k": "arff", "tag": "multi-" + tag, "text": t})
         out.append({"k": "arff", "tag": "multi-" + tag + "/nolabels", "text": t, "hl": False})
+    out.append({"k": "arff", "tag": "label-inner-blanks", "text": ARFF_UNI.replace(",x\n", ",Gun Draw\n").replace(",Y\n", ", no gun \n"),
+                "expect": {"y": ["Gun Draw", "no gun"], "X": [[[1.5, 2.0], [-3.0, 40.0]]]}})
+    out.append({"k": "tsv", "tag": "label-inner-blanks", "text": "gun draw\t0.5\t1.5\nno gun\t3\t4\n",
+                "expect": {"y": ["gun draw", "no gun"], "X": [[[0.5, 1.5], [3.0, 4.0]]]}})
     for tag, t in [("valid", TSV_OK), ("blank-lines", TSV_OK.replace("\n", "\n\n")), ("negative-labels", TSV_OK.replace("1\t0.5", "-1\t0.5")),
                    ("one-row", "3\t1.25\t2.5\n"), ("ints", "1\t1\t2\n2\t3\t4\n")]:
         out.append({"k": "tsv", "tag": tag, "text": t})
